@@ -54,6 +54,10 @@ def _run_all(repo, pids=None, share=True):
                     finally:
                         ctx._extra["borrow_stack"] = []
                     cache[pid] = res
+                # a rule that matched nothing decides nothing: fail the run rather than pass vacuously
+                for rid_, rr_ in res.rules.items():
+                    if not rr_.get("obligations") and not [f_ for f_ in res.findings if f_.rule == rid_]:
+                        res.floor_errors.append("rule %s has no instance on this tree (anchor moved, or a shared rule was cut)" % rid_)
                 if res.floor_errors and not res.findings:
                     raise AnalysisError("; ".join(res.floor_errors))
             except AnalysisError as e:
